@@ -2,6 +2,7 @@
 package netpoll
 
 import (
+	"io"
 	"context"
 	"fmt"
 	"net"
@@ -20,6 +21,7 @@ func init() {
 		func(t *vcTrial) { vcRunC13(t, vc13Cfg{Kind: "shutdown", Clients: 6, Hold: 2, DeadlineMs: 60}) },
 		func(t *vcTrial) { vcRunC13(t, vc13Cfg{Kind: "emfile", Clients: 6}) },
 		vcRunC13EmfileShutdown,
+		vcRunC13EmfileLong,
 	}
 }
 
@@ -627,4 +629,81 @@ func vcRunC13EmfileShutdown(t *vcTrial) {
 	t.Stat("accept_faults_injected", int(fp.Fired()))
 	t.Nontrivial = fp.Fired() > 1
 	t.Sig = "emfile-shutdown"
+}
+
+// vcRunC13EmfileLong: "accepting resumes once descriptors are available again" after a *long*
+// stretch - longer than the whole back-off schedule of the retry loop (0,10,50,100,200,500,1000 ms).
+// The stretch is produced at the accept wrapper and ends on a logical condition: the loop has
+// retried more often than the schedule has steps.
+func vcRunC13EmfileLong(t *vcTrial) {
+	t.P("variant", "emfile-longer-than-the-backoff-schedule")
+	var served int32
+	srv, err := vcStartServer(vcSrvOpts{Network: "tcp", NCloseCb: 1, OnRequest: func(ctx context.Context, rec *vcConnRec) error {
+		c := rec.Conn
+		n := c.Reader().Len()
+		if p, err := c.Reader().Next(n); err == nil && n > 0 {
+			c.Writer().WriteByte(p[0])
+			c.Writer().Flush()
+			atomic.AddInt32(&served, 1)
+		}
+		c.Reader().Release()
+		return nil
+	}})
+	if err != nil {
+		t.Inconclusive("server start: %v", err)
+		return
+	}
+	defer srv.Stop(3 * time.Second)
+	mark := vcTraceMark()
+	fp := &vcFaultPlan{Rules: []*vcFaultRule{{Site: vfltAccept, Errno: syscall.EMFILE, FD: srv.Ln.Fd()}}}
+	vcSetFaults(fp)
+	defer vcSetFaults(nil)
+	c1, err := net.DialTimeout("tcp", srv.Addr, 2*time.Second)
+	if err != nil {
+		t.Inconclusive("dial: %v", err)
+		return
+	}
+	defer c1.Close()
+	retries := func() (n int) {
+		for _, e := range vcTraceSince(mark) {
+			if int(e.Point) == vpEmfileRetry {
+				n++
+			}
+		}
+		return
+	}
+	for dl := time.Now().Add(4 * time.Second); retries() < 8 && time.Now().Before(dl); {
+		time.Sleep(5 * time.Millisecond)
+	}
+	nret := retries()
+	vcSetFaults(nil) // descriptors are available again
+	echo := func(c net.Conn) error {
+		c.SetDeadline(time.Now().Add(8 * time.Second))
+		if _, err := c.Write([]byte("E")); err != nil {
+			return err
+		}
+		_, err := io.ReadFull(c, make([]byte, 1))
+		return err
+	}
+	if err := echo(c1); err != nil {
+		if vcRunnerProgress(5, 5*time.Second) {
+			t.Violate("C13", "accept_not_resumed", "accept failed with EMFILE %d times in a row (%d retries of the back-off loop); descriptors are available again but the client that connected during the exhaustion was not served within 8s: %v", fp.Fired(), nret, err)
+		} else {
+			t.Inconclusive("echo failed, canary without progress")
+		}
+		return
+	}
+	c2, err := net.DialTimeout("tcp", srv.Addr, 2*time.Second)
+	if err == nil {
+		defer c2.Close()
+		if err := echo(c2); err != nil && vcRunnerProgress(5, 5*time.Second) {
+			t.Violate("C13", "accept_not_resumed", "a new client after a long EMFILE stretch (%d failed accepts) was not served within 8s: %v", fp.Fired(), err)
+			return
+		}
+	}
+	t.Stat("emfile_long_trials", 1)
+	t.Stat("accept_faults_injected", int(fp.Fired()))
+	t.Stat("emfile_retries_seen", nret)
+	t.Nontrivial = nret >= 8
+	t.Sig = fmt.Sprintf("emfile-long|retries>=8:%v", nret >= 8)
 }
